@@ -1,4 +1,4 @@
-//@ unit u10_handshake props C19
+//@ unit u10_handshake props C19 also C06
 // Unit U10: the connection handshake (src/synchronisation/peer_inbound_service.rs::initialise_connection).
 // The remote key is bound to the connection, the connection is reported as connected and an invitation is consumed only
 // after (1) the identity answer verified against the challenge created in THIS call, (2) the peer row validated, and
